@@ -13,6 +13,7 @@ void console_hwinit(console_t *c) { (void)c; }
 
 static console_t *con;
 static FILE *devnull;
+static char *obuf; static size_t olen, oseen;   /* everything the console prints (open_memstream) */
 static uint32_t now;
 
 /* ---- captured dispatches ---- */
@@ -38,6 +39,7 @@ static pt_state_t capture(console_t *c)
 	yields_left = (int)(strlen(c->cmd->name) % 3);          /* exit at once, or yield once or twice */
 	while (yields_left-- > 0)
 		PT_YIELD();
+	PT_FAIL_ON(c->cmd->name[0] == 'c');                      /* commands named c... fail: "Command failed" */
 	PT_END();
 }
 
@@ -53,11 +55,23 @@ static void reset(void)
 	ncmds = 0;
 	free(con);
 	con = malloc(sizeof(*con));
-	if (!devnull) devnull = fopen("/dev/null", "w");
+	if (devnull) { fclose(devnull); free(obuf); }
+	obuf = NULL; olen = 0; oseen = 0;
+	devnull = open_memstream(&obuf, &olen);
 	console_init(con, devnull);
 	now = 0;
 	dlen = 0; ndisp = 0; dbuf[0] = 0;
 	printf("{\"e\":\"Reset\"}\n");
+}
+static void out_json(void)
+{
+	fflush(devnull);
+	printf("\"out\":[");
+	for (size_t i = oseen; i < olen; i++) printf("%s%u", i > oseen ? "," : "", (unsigned char)obuf[i]);
+	printf("],\"pr\":[");
+	for (int i = 0; con->prompt && con->prompt[i]; i++) printf("%s%u", i ? "," : "", (unsigned char)con->prompt[i]);
+	printf("],");
+	oseen = olen;
 }
 static void line_json(void)
 {
@@ -95,6 +109,7 @@ static void do_char(int ch, int path)
 	if (path == 0) console_process(con, (char)ch);
 	else { console_putchar(con, (char)ch); settle(); }
 	printf("{\"e\":\"Char\",\"c\":%d,\"path\":%d,\"disp\":[%s],", ch, path, dbuf);
+	out_json();
 	line_json();
 	printf("}\n");
 }
@@ -123,6 +138,7 @@ static void do_eval(const unsigned char *s, int n)
 	printf("{\"e\":\"Eval\",\"s\":[");
 	for (int i = 0; i < n; i++) printf("%s%u", i ? "," : "", s[i]);
 	printf("],\"done\":%d,\"disp\":[%s],", evaldone, dbuf);
+	out_json();
 	line_json();
 	printf("}\n");
 	if (!evaldone) fibre_kill(&evalfibre);      /* never completed: withdraw it before its string goes away */
@@ -162,6 +178,7 @@ static void randoms(long seed, int n)
 		}
 		int len = drv_below(3) == 0 ? 70 + drv_below(100) : drv_below(30);   /* lines around the 79 character limit */
 		gen_line(b, len);
+		if (drv_below(5) == 0 && len >= 4) memcpy(b, drv_below(2) ? "echo" : "help", 4);       /* the built-in commands */
 		int mode = drv_below(5);
 		if (mode == 4) {                    /* console_eval: no control characters, ends in newline, one or more lines */
 			for (int i = 0; i < len; i++) if (b[i] < 32) b[i] = 32;
